@@ -73,11 +73,19 @@ func c12Conv(k, v any) c12Fire {
 	return c12Fire{ks, vi}
 }
 
+// c12PanicVal: a timer whose value is at least this makes the execute callback panic (after the fire has
+// been recorded).  What a callback does is the user's business; the timers that are due at the same tick,
+// and all later ones, must fire all the same ("fires exactly once, at its due tick" holds per timer).
+const c12PanicVal = 1_000_000
+
 func (r *c12Recorder) onFire(k, v any) {
 	f := c12Conv(k, v)
 	r.mu.Lock()
 	r.fired = append(r.fired, f)
 	r.mu.Unlock()
+	if f.val >= c12PanicVal {
+		panic(fmt.Sprintf("execute callback of %s panics (generated)", f))
+	}
 }
 
 func (r *c12Recorder) onDrain(k, v any) {
@@ -547,7 +555,12 @@ func TestVerifC12Wheel(t *testing.T) {
 				k := keyGen.Draw(t, "key")
 				steps, rem := delay(t)
 				val++
-				do(c12Op{kind: 's', key: k, val: val, steps: steps, rem: rem})
+				v := val
+				if rapid.IntRange(0, 5).Draw(t, "callbackPanics") == 0 {
+					v += c12PanicVal
+					r.cls["timers-whose-callback-panics"]++
+				}
+				do(c12Op{kind: 's', key: k, val: v, steps: steps, rem: rem})
 			},
 			"move": func(t *rapid.T) {
 				// mostly a pending key (by construction), sometimes any key
